@@ -10,7 +10,8 @@ RULE = ("histories of real messages through ValidateBasic + msg server + tx roll
         "validator, upper-case spelling of an address) x phase (registered, initialized, launched, stopped, deleted, unknown id) "
         "x ownership/Top-N history (user, transferred, gov, gov Top-N, gov Top-N handed back), incl. single messages that change owner "
         "and Top-N together in both directions, Top_N in {0,49,50,60,100,101}, invalid/blank new owners, unknown validators, "
-        "colliding keys; plus random histories. Non-trivial = a case with an unauthorized / Top-N-rule / ValidateBasic rejection "
+        "colliding keys; launched Top-N consumers (launch opts in the top validators; opt-out allowed only below the minimum "
+        "power); plus random histories. Non-trivial = a case with an unauthorized / Top-N-rule / ValidateBasic rejection "
         "or an ownership transfer; distinct = distinct set of (message type, result class, phase)")
 ASSUMPTIONS = [
     "an account is identified with its address string (the code compares strings); accounts of the matrix are the authority, "
@@ -104,6 +105,34 @@ def both_ways(rng):
                                     [2, 0, 0, -1, 100, 0], [2, 0, 0, 0, 0, 0], [2, 0, 0, 1, -1, 0]]}
 
 
+def topn_launched(rng, nvals):
+    """a launched Top-N consumer (the launch opts in the top validators) and the validators' own messages on it"""
+    n = rng.choice([50, 60, 100])
+    acts = [[1, 1, -1, 0], [2, 0, 1, 0, -1, 0]]
+    if rng.random() < 0.5:
+        acts += [[6, 0, 0, 10, rng.choice([0, 1])]]
+    acts += [[2, 0, 0, -1, n, 1], [10, 10]]
+    for _ in range(rng.randint(10, 22)):
+        r = rng.random()
+        v = rng.randrange(nvals)
+        sg = 10 + v if rng.random() < 0.85 else rng.choice([0, 1, 10 + (v + 1) % nvals, 30 + v])
+        if r < 0.35:
+            acts.append([7, 0, v, sg])
+        elif r < 0.5:
+            acts.append([6, 0, v, sg, rng.choice([0, 0, 1, 2, 1000 + v])])
+        elif r < 0.65:
+            acts.append([8, 0, v, sg, rng.choice([1, 2, 3, 1000 + v, 1000 + (v + 1) % nvals])])
+        elif r < 0.75:
+            acts.append([9, 0, v, sg, rng.choice([0, 5, 10, 100])])
+        elif r < 0.9:
+            acts.append([2, 0, rng.choice([0, 0, 1, 20]), rng.choice([-1, -1, 1, 0]), rng.choice([-1, 0, n, 50, 100, 49]), rng.choice([0, 0, 1])])
+        elif r < 0.95:
+            acts.append([3, 0, rng.choice([0, 1])])
+        else:
+            acts.append([10, rng.choice([1, UNBOND + 10])])
+    return acts
+
+
 def rand_history(rng, nvals):
     acts = []
     ncons = 0
@@ -143,7 +172,7 @@ def mk(rng, kind, acts, nvals=None):
 
 
 def gen(rng, tier):
-    reps, nrand = (4, 400) if tier == "quick" else (40, 6000)
+    reps, nrand, ntop = (4, 360, 60) if tier == "quick" else (40, 6000, 800)
     for b in both_ways(rng):
         yield mk(rng, "both", b["acts"])
     for _ in range(reps):
@@ -154,6 +183,9 @@ def gen(rng, tier):
                 pool = probes(rng, nvals, owner, prev, rng.choice([0, 0, 0, 0, 1, -1]))
                 rng.shuffle(pool)
                 yield mk(rng, phase + "/" + hist, pre + pool[:rng.randint(14, 26)], nvals)
+    for _ in range(ntop):
+        nvals = rng.choice([2, 3, 4, 4])
+        yield mk(rng, "topn-launched", topn_launched(rng, nvals), nvals)
     for _ in range(nrand):
         nvals = rng.choice([1, 2, 3, 4])
         yield mk(rng, "random", rand_history(rng, nvals), nvals)
